@@ -147,6 +147,17 @@ CLAIMED = {
         "entry written). NOT decided: fixed point and KL descent of the ML iterations (numerical).",
         technique="static analysis: sibling/dual agreement of branches and of paired functions over canonical keys with role renaming",
     ),
+    "C09": dict(
+        text="Static analysis of the current source, for QuadraticPrior, RelativeDifferencePrior and LogcoshPrior. Decides: in every "
+        "neighbourhood loop the offset along an axis runs from max(w_min, c_min - c) to min(w_max, c_max - c) for that axis' index range, so "
+        "every [c + d] subscript stays inside the image; every summand is proportional to weights[dz][dy][dx], multiplied under do_kappa by "
+        "both voxels' kappa, and the result is multiplied exactly once by penalisation_factor; by closed-form algebra (sympy, both signs of "
+        "x-y, symbolic parameters) the gradient summand is d/dx of the value's two visits of the voxel pair including the scale factors, "
+        "vanishes for equal voxels, derivative_20/derivative_11 are its partial derivatives and derivative_11 is symmetric. NOT decided: "
+        "PLSPrior, positive semi-definiteness, floating-point agreement with finite differences, degenerate epsilon == 0 branches.",
+        technique="static analysis: loop-bound shape rule for neighbour offsets, closed-form calculus (sympy) on extracted summands "
+        "with helper functions inlined",
+    ),
 }
 
 NOT_APPLICABLE = {
